@@ -29,14 +29,15 @@ def runCase (s : Schema) (line : String) : String :=
           -- a field interceptor is installed for this case: one more wrapper around every field
           let around := (j.getObjValAs? Bool "around").toOption.getD false
           let fields := if around then fieldsAround fields0 else fields0
-          let (out, st) := Impl.execRoot o rootName fields
+          let ods := opDirs dj
+          let (out, st) := Impl.execOp o rootName fields ods
           -- the Spec end to end: §6.3.2 collection + §6.4 completion, on the same oracle
           let specVerdict :=
             match planFields s (specCollector s d.frags vs) fuel root d.sels with
             | none => "spec-out-of-fuel"
             | some sfields0 =>
               let sfields := if around then fieldsAround sfields0 else sfields0
-              let (sout, sst) := Spec.execRoot o rootName sfields
+              let (sout, sst) := Spec.execOp o rootName sfields ods
               if render sout != render out then "data"
               else if errStrs sst.errs != errStrs st.errs then "errors"
               else if sortStrs (sst.invs.map fun (p, h) => p ++ " " ++ h) !=
